@@ -319,9 +319,18 @@ def h_install(eng):
             return i.call(fn, list(a), {})
         return Coro(th, "executor_job")
 
+    # Home Assistant's installer can fail (pip error, no network): homeassistant.requirements.RequirementsNotFound
+    from pyvc.interp import Raised, ExcVal, PyTypeTok as _Tok, EXC as _EXC
+    RNF = _Tok("RequirementsNotFound", [_EXC["Exception"]])
+    mod.env.vars["RequirementsNotFound"] = RNF
+    install_fails = [False]
+
     def process_reqs(i, hass_, dom, reqs):
         def th():
             installs.append(list(reqs))
+            if eng.choose(2, "installer-fails") == 1:
+                install_fails[0] = True
+                raise Raised(ExcVal(RNF, ("pyscript", list(reqs))))
             # ghost: the requested package is installed afterwards (pinned: that version; unpinned: what pip resolved)
             installed.view().setitem(SV(p), SV(want) if want_kind == "pinned" else SV(resolved))
         return Coro(th, "async_process_requirements")
@@ -339,6 +348,15 @@ def h_install(eng):
         eng.assume(z3.Select(installed.cols[".v"], p) == inst)
     k, v = run_catching(it, lambda: it.await_(it.call(mod.func("install_requirements"), [hass, entry, "folder"], {})))
     eng.cover(f"exit:{k}")
+    if install_fails[0]:
+        # a package whose installation failed is never recorded as installed by pyscript (a record makes pyscript treat
+        # the package as its own later: it would update or overwrite what somebody else installs under that name)
+        recs = [u.get("_installed_packages", {}) for u in updates] + [rec0]
+        gained = [r for r in recs if any(kk not in rec0_copy for kk in r)]
+        ob = eng.oblige(f"{U}/post.failed-install-is-not-recorded", gained == [])
+        if ob.status == "refuted":
+            ob.witness = {"signature": "failed-install-recorded"}
+        return
     eng.oblige(f"{U}/post.no-exception", k == "ok")
     if k != "ok":
         return
@@ -385,6 +403,57 @@ def h_install(eng):
         eng.oblige(f"{U}/post.stale-record-dropped-matching-record-kept", stale if not has_p else z3.Not(stale))
 
 
+CF_PY = f"{PKG}/config_flow.py"
+
+
+def h_import_keeps_record(eng):
+    """The record of what pyscript installed lives in the config entry's data (key _installed_packages).  The YAML import flow
+    (run at every start and reload for YAML-configured installations) rewrites that data from configuration.yaml: it must carry
+    the record over unchanged, for UI-created and YAML-created entries alike."""
+    it = Interpreter(eng)
+    w = World(eng)
+    mod = Module(it, CF_PY, stubs={"json": PyModule("json", {"loads": lambda i, x: x, "dumps": lambda i, x: x}),
+                                   "SOURCE_IMPORT": "import", "DOMAIN": "pyscript", "CONF_INSTALLED_PACKAGES": "_installed_packages",
+                                   "CONF_ALLOW_ALL_IMPORTS": "allow_all_imports", "CONF_HASS_IS_GLOBAL": "hass_is_global",
+                                   "CONF_LEGACY_DECORATORS": "legacy_decorators",
+                                   "CONF_BOOL_ALL": ("allow_all_imports", "hass_is_global", "legacy_decorators"),
+                                   "vol": PyModule("vol", {}), "config_entries": PyModule("config_entries", {}), "callback": lambda i, f: f})
+    U = "C20/PyscriptConfigFlow.async_step_import"
+    source = ["import", "user"][eng.choose(2, "entry-source")]
+    record = {"pkg": "1.0"}
+    data = {"allow_all_imports": bool(eng.choose(2, "stored-allow")), "_installed_packages": record}
+    if eng.choose(2, "stored-apps"):
+        data["apps"] = {"a": 1}
+    if eng.choose(2, "stored-hass-is-global"):
+        data["hass_is_global"] = True
+    imp = {}
+    if eng.choose(2, "yaml-has-allow"):
+        imp["allow_all_imports"] = bool(eng.choose(2, "yaml-allow"))
+    if eng.choose(2, "yaml-has-apps"):
+        imp["apps"] = {"a": 2}
+    data0 = dict(data)
+    entry = Rec(fields={"data": data, "source": source}, name="config_entry")
+    updates = []
+    hass = Rec(fields={"config_entries": Rec(fields={"async_entries": lambda i, d: [entry],
+                                                      "async_update_entry": lambda i, entry=None, data=None: updates.append(data)})}, name="hass")
+    self_ = Rec(fields={"hass": hass, "async_abort": lambda i, reason=None: {"type": "abort", "reason": reason},
+                        "async_step_user": lambda i, user_input=None: Coro(lambda: {"type": "create"}, "step_user")}, name="flow")
+    fn = mod.func("PyscriptConfigFlow.async_step_import")
+    k, v = run_catching(it, lambda: it.await_(it.call(fn, [self_, imp], {})))
+    eng.cover(f"exit:{k}:{source}")
+    eng.oblige(f"{U}/post.no-exception", k == "ok")
+    final = updates[-1] if updates else data
+    ob = eng.oblige(f"{U}/post.record-of-installed-packages-carried-over", "_installed_packages" in final and final["_installed_packages"] is record)
+    if ob.status == "refuted":
+        ob.witness = {"signature": "record-lost-by-yaml-import", "source": source}
+    eng.oblige(f"{U}/post.stored-data-not-mutated-in-place", data == data0)
+    # the rest of the documented behaviour of the import: YAML wins for a YAML-created entry; a UI-created entry keeps its flags
+    if source == "import":
+        eng.oblige(f"{U}/post.yaml-entry-follows-the-yaml", all(final.get(kk) == vv for kk, vv in imp.items()) and all(kk in imp or kk == "_installed_packages" for kk in final))
+    else:
+        eng.oblige(f"{U}/post.ui-entry-keeps-its-flags", final.get("allow_all_imports") == data0.get("allow_all_imports") and final.get("hass_is_global") == data0.get("hass_is_global"))
+
+
 def h_update_unpinned(eng):
     it = Interpreter(eng)
     w = World(eng)
@@ -421,7 +490,10 @@ def harnesses():
     return [
         Harness("merge-loop.step", h_merge, units=[(R_PY, "process_all_requirements")], replay=replay_merge),
         Harness("summary-commutes", h_summary_commutes, units=[]),
-        Harness("install-decision", h_install, units=[(R_PY, "install_requirements")]),
+        Harness("install-decision", h_install, units=[(R_PY, "install_requirements")],
+                replay=lambda wj: __import__("replay.native", fromlist=["run_native"]).run_native("c20_failed_install", wj)),
+        Harness("config-import-keeps-record", h_import_keeps_record, units=[(CF_PY, "PyscriptConfigFlow.async_step_import")],
+                replay=lambda wj: __import__("replay.native", fromlist=["run_native"]).run_native("c20_yaml_import_keeps_record", wj)),
         Harness("update_unpinned_versions", h_update_unpinned, units=[(R_PY, "update_unpinned_versions")]),
         Harness("scanner", b_scanner, units=[(R_PY, "process_all_requirements")], kind="bounded"),
     ]
